@@ -17,6 +17,7 @@ paths additionally by the harness oracle `bezpath-draws-back` on the real code.
 import FontVerif.Model.Glyf
 import FontVerif.Lemmas.Glyf
 import FontVerif.Lemmas.GlyfBytes
+import FontVerif.Lemmas.GlyfRuns
 import FontVerif.Lemmas.GlyfComp
 import FontVerif.Lemmas.GlyfPath
 set_option linter.unusedVariables false
@@ -535,6 +536,82 @@ theorem accepted_simple_le_65535_points (g : SimpleGlyph) (b : List Nat)
       · omega
     · cases h
 
+/-! ## both point decoders agree on every well-formed glyph, whatever the flag run lengths -/
+
+/-- **read_points_fast_eq_points_on_valid.**  Take ANY well-formed simple-glyph point data: a flag
+array given as a list of items — a flag byte with the REPEAT bit and a repeat count `0..255` (count 0
+included: two bytes for one point), or a plain flag byte — in ANY run-length coding (not only the
+shortest one the writer emits), standing for `last + 1 ≤ 65535` points, followed by exactly the
+x bytes and y bytes the flags announce (in any of the legal forms: short, long, same) and any padding.
+Then `read_points_fast` (fixed code, `fix:` d12a1b2: flag window of two bytes per point) succeeds with
+one entry per point, and the slow decoder `points()` yields exactly the same points: the same on-curve
+bits, and the same coordinates (`points()` accumulates in `i16`, `read_points_fast::<i32>` in `i32`:
+equal after the `as i16` every consumer applies, and literally equal whenever the running sums are
+`i16` values, as in every valid glyph). -/
+theorem read_points_fast_eq_points_on_valid (v : SimpleView) (items : List RepeatableFlag)
+    (xs ys pad : List Nat) (last : Nat)
+    (hl : v.endPts.getLast? = some last) (hn : last + 1 = (expandRaw items).length)
+    (hmax : (expandRaw items).length ≤ 65535) (hrep : ∀ i ∈ items, i.rep ≤ 255)
+    (hx : xs.length = ((expandRaw items).map xSize).sum)
+    (hy : ys.length = ((expandRaw items).map ySize).sum)
+    (hg : v.glyphData = items.flatMap RepeatableFlag.bytes ++ (xs ++ (ys ++ pad))) :
+    ∃ fast : List (Int × Int × Nat), v.readPointsFast = some fast ∧ fast.length = last + 1 ∧
+      v.points = fast.map (fun t => (⟨wrapI16 t.1, wrapI16 t.2.1, t.2.2 != 0⟩ : Point)) := by
+  have hne : items ≠ [] := by
+    intro e; rw [e] at hn; simp [expandRaw] at hn
+  have hcl := flatMap_bytes_length items
+  have hc2 := cost_le_two items
+  have hnp : v.numPoints = (expandRaw items).length := by
+    unfold SimpleView.numPoints; rw [hl]; exact hn
+  obtain ⟨X, Y, hX, hY, hXl, hYl, hdec⟩ :=
+    coords_agree (expandRaw items) xs ys (ys ++ pad) pad [] pad 0 0 hx hy
+  -- the fast decoder
+  have hfast : v.readPointsFast = some ((X.zip (Y.zip (expandRaw items))).map
+      (fun t => (t.1, t.2.1, t.2.2 &&& 1))) := by
+    unfold SimpleView.readPointsFast
+    simp only [hnp, hg]
+    have hn0 : ¬ ((expandRaw items).length = 0) := by omega
+    simp only [hn0, ↓reduceIte]
+    rw [List.take_append]
+    have hk : (items.flatMap RepeatableFlag.bytes).length
+        ≤ min (2 * (expandRaw items).length)
+          ((items.flatMap RepeatableFlag.bytes ++ (xs ++ (ys ++ pad))).length) := by
+      simp only [List.length_append, hcl]; omega
+    rw [List.take_of_length_le hk, fastFlags_items_any items _ hne]
+    simp only [ne_eq, not_true_eq_false, ↓reduceIte]
+    rw [← hcl, List.drop_left, hX]
+    simp only []
+    rw [hY]
+  refine ⟨_, hfast, ?_, ?_⟩
+  · simp [hXl, hYl, hn]
+  · -- the slow decoder
+    have hres := resolve_items_any items (xs ++ (ys ++ pad)) 0 0 0
+    simp only [Nat.zero_add] at hres
+    unfold SimpleView.points
+    rw [hl]
+    simp only []
+    have h1 : ¬ (last + 1 > 65535) := by omega
+    simp only [h1, ↓reduceIte, hn, hg, hres]
+    have h2 : ¬ ((items.flatMap RepeatableFlag.bytes ++ (xs ++ (ys ++ pad))).length
+        < rleCost items + ((expandRaw items).map xSize).sum + ((expandRaw items).map ySize).sum) := by
+      simp only [List.length_append, hcl]; omega
+    simp only [h2, ↓reduceIte]
+    rw [← hcl, ← hx]
+    simp only [List.take_left', List.drop_left', List.take_left, List.drop_left]
+    unfold PointIter.new
+    rw [collect_items]
+    · have : wrapI16 0 = 0 := by decide
+      rw [this] at hdec
+      simp only [List.append_nil] at hdec
+      rw [hdec]
+      have h1' : ¬ ((expandRaw items).length > 65535) := by omega
+      simp only [List.map_map, h1', ↓reduceIte]
+      apply List.map_congr_left
+      intro t _
+      simp [hasBit, ON_CURVE]
+    · have := length_le_256_cost items hrep
+      rw [hcl]; omega
+
 /-! ## GlyfLocaBuilder: glyph i of the built tables is the i-th glyph added -/
 
 /-- **build_get_glyf.**  Let `GlyfLocaBuilder` accept a sequence `gs` of simple / composite / empty
@@ -980,6 +1057,25 @@ def tri : SimpleGlyph :=
 example : (build [.empty, .simple tri, .composite cg2, .simple ⟨0, 0, 0, 0, [], []⟩]).isSome = true := by
   decide +kernel
 example : (build [.empty, .simple tri]).map (fun r => r.2) = some [0, 0, 26] := by decide +kernel
+
+/-- the 3-point glyph whose flags are all REPEAT with count 0 (two flag bytes per point — legal, not
+optimal; the pre-fix window of `num_points` bytes made `read_points_fast` fail on it): both decoders -/
+def repeat0 : List Nat :=
+  [0x00, 0x01, 0, 0, 0, 0, 0x01, 0xf4, 0x01, 0xf4, 0x00, 0x02, 0x00, 0x00,
+   0x3f, 0x00, 0x3f, 0x00, 0x3f, 0x00, 1, 2, 3, 4, 5, 6]
+example : (readSimple repeat0).map (·.readPointsFast) = some (some [(1, 4, 1), (3, 9, 1), (6, 15, 1)]) := by
+  decide +kernel
+example : (readSimple repeat0).map (·.points) = some [⟨1, 4, true⟩, ⟨3, 9, true⟩, ⟨6, 15, true⟩] := by
+  decide +kernel
+/-- the hypotheses of `read_points_fast_eq_points_on_valid` hold for it -/
+example : (readSimple repeat0).map (·.glyphData) =
+    some (([⟨0x3f, 0⟩, ⟨0x3f, 0⟩, ⟨0x3f, 0⟩] : List RepeatableFlag).flatMap RepeatableFlag.bytes
+      ++ ([1, 2, 3] ++ ([4, 5, 6] ++ []))) ∧
+    (expandRaw [⟨0x3f, 0⟩, ⟨0x3f, 0⟩, ⟨0x3f, 0⟩]).length = 3 ∧
+    ((expandRaw [⟨0x3f, 0⟩, ⟨0x3f, 0⟩, ⟨0x3f, 0⟩]).map xSize).sum = 3 := by decide +kernel
+/-- flags that end before every point has one: an error in the fast decoder, no points in the slow one -/
+example : (readSimple (repeat0.take 18)).map (·.readPointsFast) = some none ∧
+    (readSimple (repeat0.take 18)).map (·.points) = some [] := by decide +kernel
 
 /-- a history with rejected glyphs in the middle (composites without components fail validation): the
 builder carries on, only the accepted glyphs get glyph ids and bytes, and the plain `build` of the same
